@@ -125,30 +125,43 @@ def reject(spec):
     return out
 
 
+def errmsg(spec):
+    """B-ERRMSG (C12, bounded): one obligation per family of failing renders (see errpos for the
+    treatment of listed findings)"""
+    return _family_unit('errmsg.py', 'B-ERRMSG', 'render pipeline: first record of the error message',
+                        'the exception is an instance of the original class and the first record of its message '
+                        'names the failing expression with the line and column at which it stands')
+
+
 def errpos(spec):
+    return _family_unit('errpos.py', 'B-ERRPOS', 'compile pipeline: error token of rejected templates',
+                        'the token of the TemplateError is exactly the offending substring of the source '
+                        '(offset, text, line and column) for every catalogue member of this family')
+
+
+def _family_unit(script, uid, function, text):
     """B-ERRPOS (C11, bounded): one obligation per family of erroneous templates; a family listed in
     known_findings.json (obligation `B-ERRPOS[family]`, witness = the JSON list of the failing
     templates) is reported as KNOWN-FINDING as long as nothing outside that list fails"""
     import json as _json
     t0 = time.time()
-    r = _run('errpos.py', [REPO])
+    r = _run(script, [REPO])
     fams = {}
     for v in r.get('violations', []):
         fams.setdefault(v['family'], []).append(v)
-    out = {'unit': 'B-ERRPOS', 'obligations': [], 'wall': time.time() - t0, 'known': {},
-           'bounded': [{'id': 'B-ERRPOS', 'function': 'compile pipeline: error token of rejected templates',
+    out = {'unit': uid, 'obligations': [], 'wall': time.time() - t0, 'known': {},
+           'bounded': [{'id': uid, 'function': function,
                         'bound': r['bound'], 'cases': r['cases'], 'distinct': r['distinct']}]}
     from pyvc.check import load_known
     listed = {f['obligation']: f for f in load_known().get('findings', [])
-              if f['obligation'].startswith('B-ERRPOS[')}
+              if f['obligation'].startswith(uid + '[')}
     for fam, vs in sorted(fams.items()):
-        name = 'B-ERRPOS[%s]' % fam
+        name = '%s[%s]' % (uid, fam)
         o = {'name': name, 'expect': 'valid', 'status': 'failed', 'backend': 'bounded', 'time': 0.0,
              'okind': 'bounded', 'tried': 'enumeration', 'confirmed': True,
-             'text': 'the token of the TemplateError is exactly the offending substring of the source '
-                     '(offset, text, line and column) for every catalogue member of this family',
+             'text': text,
              'witness': {'inputs': {'template': vs[0]['template']},
-                         'detail': '%s: %s' % (vs[0]['error'], vs[0]['what'])}}
+                         'detail': '%s: %s' % (vs[0].get('error', ''), vs[0]['what'])}}
         f = listed.get(name)
         if f is not None:
             try:
@@ -162,10 +175,10 @@ def errpos(spec):
             else:
                 o['witness'] = {'inputs': {'template': extra[0]['template']},
                                 'detail': '%s: %s (not among the listed witnesses of the known finding)'
-                                          % (extra[0]['error'], extra[0]['what'])}
+                                          % (extra[0].get('error', ''), extra[0]['what'])}
         out['obligations'].append(o)
     for name, f in listed.items():
-        if name[len('B-ERRPOS['):-1] not in fams:
+        if name[len(uid) + 1:-1] not in fams:
             # listed finding no longer reproduces: a discharged `known` obligation says so
             out['obligations'].append({'name': name, 'expect': 'valid', 'status': 'discharged', 'backend': 'bounded',
                                        'time': 0.0, 'okind': 'bounded', 'known': True, 'tried': 'enumeration',
